@@ -129,7 +129,7 @@ def closeSide (q : Seq) (sd : Side) : Seq × List Nat :=
 def fin (q : Seq) (out : String) : Option Seq × String :=
   if q.stuck then (some q, "err model-stuck") else (some q, out)
 
-def seqStep (st : Option Seq) (t : List String) : Option Seq × String :=
+def seqStepCore (st : Option Seq) (t : List String) : Option Seq × String :=
   match st, t with
   | _, ["new", c] =>
     match c.toNat? with
@@ -216,6 +216,13 @@ def seqStep (st : Option Seq) (t : List String) : Option Seq × String :=
     let rf := if q.recvAlive then boolStr (isFull c.head c.tail q.sys.cap) else "-"
     (st, s!"ok rlen={rl} rfull={rf} wakes={q.rWakes},{q.sWakes}")
   | _, _ => (st, "bad-op")
+
+
+/-- `extend k v` (`SendSlice::extend`, the bulk form of the push loop) behaves like `push k v` -/
+def seqStep (st : Option Seq) (t : List String) : Option Seq × String :=
+  match t with
+  | ["extend", k, v] => seqStepCore st ["push", k, v]
+  | _ => seqStepCore st t
 
 def spscSeq : Component := { name := "spsc-seq", σ := Option Seq, init := none, step := seqStep }
 
